@@ -56,7 +56,10 @@ func (g *gen) badSites() []badSite {
 		msV, msP := types.NewMethodSet(g.typeOf(i, false)), types.NewMethodSet(g.typeOf(i, true))
 		for _, name := range names {
 			if msP.Lookup(g.pkg, name) != nil && msV.Lookup(g.pkg, name) == nil {
-				out = append(out, badSite{"method-expr-T.pointerMethod", fmt.Sprintf("_ = %s.%s\n", td.name, name)})
+				// T.M with M in the method set of *T only: gomacro accepts it on purpose
+				// (its own test concrete_method_to_func_2: sync.WaitGroup.Done) and the
+				// property speaks of method sets for interface satisfaction only
+				countLabel("excluded:method-expression-on-value-type-of-pointer-method(accepted by design)")
 			}
 		}
 		// impossible assertion / type-switch case: the type lacks the interface's methods
@@ -108,10 +111,6 @@ func GenerateReject(t *rapid.T, px string) (bad, control gobatch.Program, kind s
 	seen := map[string]bool{}
 	for _, s := range sites {
 		switch s.kind {
-		case "method-expr-T.pointerMethod":
-			if !seen[s.kind] && excl("F-C09-2") {
-				seen[s.kind] = true
-			}
 		case "pointer-method-on-unaddressable-value", "pointer-method-value-of-unaddressable-value":
 			if !seen[s.kind] && excl("F-C09-8") {
 				seen[s.kind] = true
@@ -159,7 +158,6 @@ func GenerateReject(t *rapid.T, px string) (bad, control gobatch.Program, kind s
 	g.useFmt = usesFmt
 	g.useSort = containsStd(site.stmt, "sort.")
 	control = g.finish(body+"rec.E(1)\n", nil, map[string]string{"stream": "reject-control"})
-	control.Imports = nil
 	bad = g.finish(body+site.stmt+"rec.E(1)\n", nil, map[string]string{"stream": "reject", "kind": kind})
 	return bad, control, kind, true
 }
